@@ -70,6 +70,12 @@ CHECKS = {
    note="Trusted: Coq kernel; translator T6 (structural, fail closed). The loop model abstracts one iteration's callbacks into one outcome. Transition-level containment (state finite, flags recorded, chain continues) is established by the fault grid, not by a theorem. Known findings G13a/G13b (non-finite constraint Jacobian -> mici LinAlgError; invalid metric value -> ValueError outside a solve) are re-observed and listed.",
    technique="Coq proof over all fault schedules of a solver-loop model + tables regenerated from source (ast translator) + fault-injection grid on the real code",
    design="5/C12"),
+ "C14": dict(
+   cat="proof",
+   text="Coq theorems (no axioms) about Model/Parallel.v: for ANY assignment of chains to workers and any completion order (any permutation of the returned (chain index, output) pairs with distinct indices) the collated result is the same (schedule_independent) and equals the outputs in chain order, i.e. the sequential result (collated_is_chain_order); with the generator state threaded from stage to stage a chain never consumes a draw twice for any stage sizes and distinct chains never share a draw (stream_never_replayed, streams_distinct); restarting each stage from the initial state replays (restart_would_replay, the defect fixed in f20ff0f). Tie: the model's collation vs index-sorted outputs on random completion orders; search: identical seeds across n_process 1/2/(3) with per-chain delays permuting pick-up and completion order, chain counts, single- and multi-stage runs with step-size and metric adapters, several bit generators, compared bitwise; stage splitting does not change a chain; chain independence of other chains' starts and count; distinct streams.",
+   note="Trusted: Coq kernel; hand model tied by correspondence. OS scheduling is perturbed, not enumerated (partial for that clause). Known finding G21 (array-valued initial states: per-chain streams depend on the chain count) is re-observed and listed.",
+   technique="Coq proof (permutation-invariance of sorted collation, disjointness of stream intervals) + schedule-perturbing differential search against the real sampler",
+   design="5/C14"),
 }
 
 NOT_YET = "check not built yet in this round (design in DESIGN.md section 5); no claim is made"
